@@ -88,9 +88,12 @@ def __yf_T__(fn, it):
         try:
             s = yield __m__(fn, '#yield', v)
         except GeneratorExit:
-            it.close()
+            if hasattr(it, "close"):
+                it.close()
             raise
         except BaseException as e:
+            if not hasattr(it, "throw"):
+                raise
             try:
                 v = it.throw(e)
             except StopIteration as e2:
@@ -1098,6 +1101,16 @@ class Gen:
             nm = self.rnd.choice(LOCALS)
             n = self.nsite()
             k = self.rnd.randint(0, 2)
+            if self.rnd.random() < 0.3:
+                # delegation to a plain iterable: a value sent into it is an AttributeError at the
+                # `yield from` (its iterator has no send), not a silent next
+                self.feat("yield_from_plain_iterable")
+                items = "[" + ", ".join(self.leaf() for _ in range(k + 1)) + "]"
+                em.ponly(f"{nm} = yield from {items}")
+                em.tonly(f"{nm} = yield from __yf_T__({fn!r}, {items})")
+                self.bind_hook(em, fn, nm)
+                ctx["bound"].discard(nm)
+                return
             em.ponly(f"{nm} = yield from __sub__({n}, {k})")
             em.tonly(f"{nm} = yield from __yf_T__({fn!r}, __sub__({n}, {k}))")
             self.bind_hook(em, fn, nm)
